@@ -173,9 +173,8 @@ func (g *guard) ReleaseTreasureGuard(guardID ID) {
 
 	if len(g.waitForUnlock) > 0 && g.waitForUnlock[0] == int64(guardID) {
 		g.waitForUnlock = g.waitForUnlock[1:]
-		if len(g.waitForUnlock) == 0 {
-			atomic.StoreInt64(&g.largestGuardID, 0)
-		}
+		// largestGuardID is deliberately not reset when the queue empties: a guard ID must never be
+		// issued twice, otherwise a late or duplicate release of an old ID releases the next holder.
 		g.cond.Broadcast()
 		return
 	}
